@@ -1,0 +1,28 @@
+//go:build verif
+
+// Package verifhook provides named observation points for external runtime monitors.
+package verifhook
+
+import "sync/atomic"
+
+// Func is the callback signature: event name, the *hotline.Server the event belongs to,
+// the client ID concerned and one free integer (e.g. a transaction type).
+type Func func(name string, srv any, cid [2]byte, x uint32)
+
+var cb atomic.Pointer[Func]
+
+// Install sets (or, with nil, removes) the process-wide callback.
+func Install(f Func) {
+	if f == nil {
+		cb.Store(nil)
+		return
+	}
+	cb.Store(&f)
+}
+
+// Event reports an observation point to the installed callback, if any.
+func Event(name string, srv any, cid [2]byte, x uint32) {
+	if p := cb.Load(); p != nil {
+		(*p)(name, srv, cid, x)
+	}
+}
